@@ -49,6 +49,13 @@ func Main(m *testing.M, gen func(hx.Args), run func(t *testing.T, toks []string)
 	os.Exit(code)
 }
 
+// RealDeadline is the real-time limit of one op (a bubble that never becomes quiescent, e.g. a goroutine spinning
+// while virtual time stands still, ends as HANG). DeadlineFor, when set, chooses it per op.
+var (
+	RealDeadline = 120 * time.Second
+	DeadlineFor  func(toks []string) time.Duration
+)
+
 // RunTest is the body of TestSim: one synctest bubble per op line.
 func RunTest(t *testing.T) {
 	sc := bufio.NewScanner(os.Stdin)
@@ -59,7 +66,13 @@ func RunTest(t *testing.T) {
 			continue
 		}
 		toks := strings.Fields(line)
-		res := Bubble(t, 120*time.Second, func(t *testing.T) string { return runFn(t, toks) })
+		dl := RealDeadline
+		if DeadlineFor != nil {
+			if d := DeadlineFor(toks); d > 0 {
+				dl = d
+			}
+		}
+		res := Bubble(t, dl, func(t *testing.T) string { return runFn(t, toks) })
 		hx.Emit("%s | %s", line, res)
 		hx.Flush()
 	}
